@@ -58,6 +58,7 @@ def run_case(case):
     kind, geom = case["kind"], case["geom"]
     phi_dep = 0.0 if geom == "axis" else 0.2
     calls = {"dgain": [], "pgain": [], "freq": 0}
+    phase0 = 0.0 if rng.random() < 0.4 else float(rng.uniform(-np.pi, np.pi))
 
     class GainAnt(pa.Antenna):
         def directional_gain(self, theta, phi):
@@ -70,7 +71,8 @@ def run_case(case):
 
         def frequency_response(self, frequencies):
             calls["freq"] += 1
-            return 1 / (1 + 1j * np.asarray(frequencies) / 3e8)
+            # with a constant phase rotation the response is not Hermitian by itself: force_real then decides the output
+            return np.exp(1j * phase0) / (1 + 1j * np.asarray(frequencies) / 3e8)
 
     R0 = gen.random_rotation(rng)
     z, x = R0[:, 2], R0[:, 0]
@@ -141,7 +143,7 @@ def run_case(case):
     elif kind in ("gain", "system"):
         dg = 0.3 + np.cos(th) ** 2 + phi_dep * np.cos(phi)
         pg = float(np.dot(pn, base.x_axis) + 0.5 * np.dot(pn, base.z_axis))
-        H = lambda f: 1 / (1 + 1j * np.asarray(f) / 3e8)
+        H = lambda f: np.exp(1j * phase0) / (1 + 1j * np.asarray(f) / 3e8)
         # the recorders saw the arguments the gains were asked for
         if v.check(len(calls["dgain"]) >= 1 and len(calls["pgain"]) >= 1, "gain functions are consulted"):
             th_c, ph_c = calls["dgain"][0]
